@@ -5,7 +5,9 @@ P="$1"; shift
 cd /repo || exit 2
 git diff --quiet || { echo "/repo has uncommitted changes"; exit 2; }
 git apply "$P" || { echo "patch does not apply"; exit 3; }
-trap 'git -C /repo checkout -- . ' EXIT
+# evidence written while a seeded change is applied must not replace the evidence of the real tree
+EVB=$(mktemp -d /tmp/evidence-backup.XXXXXX); cp -a /verif/evidence/. "$EVB"/ 2>/dev/null
+trap 'git -C /repo checkout -- . ; cp -a "$EVB"/. /verif/evidence/ ; rm -rf "$EVB"' EXIT
 for prop in "$@"; do
   ( cd /verif && ./check "$prop" --tier quick 2>&1 | grep -E "^(VIOLATION|OK|FAIL|KNOWN)" )
 done
